@@ -106,7 +106,7 @@ func init() {
 	register(&PropDef{
 		ID:    "C16",
 		Level: "exploration",
-		Rule: "for every corpus invoice: the source envelope is optionally stamped with the stamps its regime requires, signed and crash-restarted; the clock is placed at a seeded instant (including 23:59:59 / 00:00:00 UTC and the regime's zone around a day change); then it is corrected (every invoice type × option subsets: reason, extensions, stamps via header or options, series, issue date, copy-tax; Go options and raw JSON) or replicated through library, cli function, bulk action and cobra command at the same simulated instant; the library result is then mutated in place (lines, parties, preceding stamps, header stamps, recalculation, signing) and the source re-checked after each mutation, and vice versa; " +
+		Rule: "for every corpus invoice (also with addons removed, replaced or combined, and with a value date): the source envelope is optionally stamped with the stamps its regime requires, signed and crash-restarted; the clock is placed at a seeded instant (including 23:59:59 / 00:00:00 UTC and the regime's zone around a day change); then it is corrected (every invoice type × option subsets: reason, extensions, stamps via header or options, series, issue date, copy-tax; Go options and raw JSON) or replicated through library, cli function, bulk action and cobra command at the same simulated instant; the library result is then mutated in place (lines, parties, preceding stamps, header stamps, recalculation, signing) and the source re-checked after each mutation, and vice versa; " +
 			"a case is (document, operation, type, option set, entry point) and is non-trivial when the operation succeeded or was refused for a modelled reason",
 		Assumptions: []string{
 			"refusal is predicted from the published data/regimes/*.json and data/addons/*.json correction definitions (types, reason_required, stamps); when no type list is published no refusal is predicted",
